@@ -58,25 +58,28 @@ def run(cmd, timeout, cwd=None, env=None):
         stdout=subprocess.PIPE, stderr=subprocess.STDOUT, text=True)
 
 
-def ensure_built(timeout: int = 1500) -> tuple[bool, str]:
-    """Full .vo build of the Coq development (no-op when current)."""
+def ensure_built(timeout: int = 1500, targets: list[str] | None = None) -> tuple[bool, str]:
+    """Full .vo build (no-op when current) of the given make targets - by
+    default everything in _CoqProject.  A check builds its own property file
+    and what that depends on, so that a file somebody is still editing
+    elsewhere in the development cannot break it."""
     BUILD.mkdir(exist_ok=True)
+    targets = targets or []
     mk = COQ / "Makefile"
     if mk.exists() and mk.stat().st_mtime >= (COQ / "_CoqProject").stat().st_mtime:
         # up to date already?  (question mode reads timestamps only; avoids
         # queueing behind somebody else's build for nothing)
-        q = run(["make", "-q"], 120, cwd=COQ)
+        q = run(["make", "-q"] + targets, 120, cwd=COQ)
         if q.returncode == 0:
             return True, "up to date"
     lock = open(BUILD / ".lock", "w")
     fcntl.flock(lock, fcntl.LOCK_EX)
     try:
-        if not (COQ / "Makefile").exists() or \
-                (COQ / "Makefile").stat().st_mtime < (COQ / "_CoqProject").stat().st_mtime:
+        if not mk.exists() or mk.stat().st_mtime < (COQ / "_CoqProject").stat().st_mtime:
             r = run(["coq_makefile", "-f", "_CoqProject", "-o", "Makefile"], 120, cwd=COQ)
             if r.returncode != 0:
                 return False, r.stdout
-        r = run(["make", "-j16"], timeout, cwd=COQ)
+        r = run(["make", "-j8"] + targets, timeout, cwd=COQ)
         (BUILD / "make.log").write_text(r.stdout)
         return r.returncode == 0, r.stdout
     finally:
@@ -125,7 +128,7 @@ def check_props(pid: str, timeout: int = 600) -> dict:
     """Proof stage for one property: build everything, then re-check the
     property file on its own and read its Print Assumptions output."""
     t0 = time.time()
-    ok, log = ensure_built()
+    ok, log = ensure_built(targets=[f"props/{pid}.vo"])
     res = {"built": ok, "theorems": [], "closed": 0, "open": [], "log_tail": ""}
     if not ok:
         res["log_tail"] = log[-3000:]
